@@ -114,3 +114,66 @@ package handler
 //@ func TimeoutHandler closure 0
 //@   property C04
 //@   ensures implies(duration <= 0, result == next)
+
+// ---------------------------------------------------------------------------------------------
+// C18 authentication gates. `served` counts calls of the protected handler; unauths counts 401 responses.
+// ---------------------------------------------------------------------------------------------
+//@ ghost var unauths int
+//@ func unauthorized
+//@   property C18
+//@   flag callbacks_noheap
+//@   ghost at before WriteHeader#0: unauths = unauths + 1
+//@   call WriteHeader#0: assert arg0 == 401
+//@   ensures unauths == old(unauths) + 1 && served == old(served)
+//@   modifies heap, unauths, calls(callback), hdrCode, wTouched
+//@ func detailAuthLog
+//@   trusted
+//@   modifies nothing
+
+// the protected handler runs only for a token the parser accepted and that is Valid with map claims; everything else gets 401
+//@ func Authorize closure 1
+//@   property C18
+//@   ghost at after ParseToken#0: pe = ret1
+//@   ghost at after ParseToken#0: tk = ret0
+//@   ghost at after ParseToken#0: tv = ret0.Valid
+//@   call ParseToken#0: assert arg_secret == secret && arg_prevSecret == authOpts.PrevSecret && arg_r == r
+//@   ensures (served == old(served) + 1 && unauths == old(unauths)) || (served == old(served) && unauths == old(unauths) + 1)
+//@   ensures implies(served == old(served) + 1, pe == nil && tk != nil && tv)
+//@   ensures_panic served == old(served) + 1 && pe == nil && tk != nil && tv
+//@   loop 0: modifies nothing
+//@   loop 0: invariant true
+
+// strict content security
+//@ func handleVerificationFailure
+//@   property C18
+//@   ensures implies(strict, served == old(served) && hdrCode[w] == 403)
+//@   ensures implies(!strict, served == old(served) + 1)
+//@   ensures_panic !strict && served == old(served) + 1
+
+//@ func executeCallbacks
+//@   property C18
+//@   flag callbacks_noheap
+//@   call callback#0: assert arg0 == w && arg1 == r && arg2 == next && arg3 == strict && arg4 == code
+//@   loop 0: modifies calls(callback)
+//@   loop 0: invariant true
+
+// for the methods it checks, the handler is reached directly only after the header parsed and the signature verified;
+// known finding F9: other methods (PATCH, HEAD, OPTIONS, ...) reach the handler unverified even in strict mode.
+//@ func LimitContentSecurityHandler closure 1
+//@   property C18
+//@   flag callbacks_noheap
+//@   ghost at entry: d1 = false
+//@   ghost at entry: dc = false
+//@   ghost at entry: d2 = false
+//@   ghost at entry: pe = nil
+//@   ghost at entry: vc = -1
+//@   ghost at after ParseContentSecurity#0: pe = ret1
+//@   ghost at after VerifySignature#0: vc = ret
+//@   ghost at before LimitCryptionHandler#0: dc = true
+//@   ghost at before ServeHTTP#1: d1 = true
+//@   ghost at before ServeHTTP#2: d2 = true
+//@   call VerifySignature#0: assert arg_r == r && arg_tolerance == tolerance
+//@   call executeCallbacks#0: assert arg_strict == strict && arg_next == next
+//@   call executeCallbacks#1: assert arg_strict == strict && arg_next == next
+//@   ensures implies(d1 || dc, pe == nil && vc == httpx.CodeSignaturePass)
+//@   ensures implies(strict, !d2)
